@@ -412,6 +412,14 @@ def inst_circuits(seed: int, thorough: bool) -> dict:
             (['lib', 'VariableUnitaryGate', 2, [2, 2]], (1, 0)),
             (['dagger', ['lib', 'U3Gate']], (1,)),
         ], seed),
+        # two parameterised operations sharing a cycle, one on a location
+        # written high-to-low: iteration order (by location[0]) and grid
+        # order (by lowest qudit) disagree, so whoever writes the winning
+        # parameters back must use the circuit's own flat indexing
+        'permuted-cycle': _mk((2, 2, 2), [
+            (['lib', 'RZZGate'], (2, 0)), (['lib', 'RYGate'], (1,)),
+            (['lib', 'CNOTGate'], (1, 2)), (['lib', 'U3Gate'], (0,)),
+        ], seed),
         'constant': _mk((2, 2), [
             (['lib', 'CNOTGate'], (1, 0)), (['lib', 'HGate'], (1,)),
         ], seed),
